@@ -182,6 +182,9 @@ impl<R: Read> Decompressor<R> {
     pub fn get_ref(&self) -> &R {
         &self.inner
     }
+    pub fn get_mut(&mut self) -> &mut R {
+        &mut self.inner
+    }
 }
 
 impl<R: Read> Read for Decompressor<R> {
@@ -244,6 +247,9 @@ impl<W: Write> CompressorWriter<W> {
     }
     pub fn get_ref(&self) -> &W {
         &self.inner
+    }
+    pub fn get_mut(&mut self) -> &mut W {
+        &mut self.inner
     }
 }
 
